@@ -7,8 +7,8 @@ A value is a B(node, w) with node one of
                                A leaf is an opaque term.  AND / OR / XOR / NOT / rotations / shifts by constants stay inside this
                                form (rotations distribute to the leaves and rotate the masks; x << n = rotl(x, n) & const), so
                                `g ^ (e & (f ^ g))` and `(e & f) ^ (~e & g)`, or `rotl(a ^ b)` and `rotl(a) ^ rotl(b)`, are the
-                               SAME node.  XOR never loses canonicity however it is associated; an AND operand with more than
-                               LEAFIFY monomials is first turned into a leaf of its own (a semantically determined cut point).
+                               SAME node.  An AND operand with more than LEAFIFY monomials is first turned into a leaf of its own
+                               (a semantically determined cut point), and so is any result with more than XMAX monomials.
   ("s", {leaf id: coeff}, c)   linear combination mod 2^w of opaque terms plus a constant: additions/subtractions in any
                                order and association are the SAME node.
 
@@ -21,8 +21,10 @@ the query is trivial, otherwise the solver has to decide it within the timeout.
 """
 import z3
 
-LEAFIFY = 64
+LEAFIFY = 12
+XMAX = 256
 
+_VARS = []        # input variables created through B.var, in creation order
 _LEAF = {}        # leaf id -> z3 term (the reference also keeps the ast id from being recycled)
 _MATCACHE = {}
 
@@ -31,6 +33,7 @@ def reset():
     """fresh z3 context and tables: every specification is decided from the same initial state"""
     _LEAF.clear()
     _MATCACHE.clear()
+    del _VARS[:]
     z3.z3._main_ctx = None
 
 
@@ -58,7 +61,9 @@ class B:
 
     @staticmethod
     def var(name, w):
-        return B(("t", z3.BitVec(name, w)), w)
+        v = z3.BitVec(name, w)
+        _VARS.append(v)
+        return B(("t", v), w)
 
     @staticmethod
     def term(t):
@@ -148,7 +153,12 @@ class B:
         return {_leaf(self.t()): 1}, 0
 
     def _mk_a(self, d):
-        return B(("a", d), self.w)
+        r = B(("a", d), self.w)
+        if len(d) > XMAX:
+            # a very large function becomes one opaque leaf (bounds the growth over many rounds; the cut point depends on the
+            # order in which a long XOR chain is associated, so implementation and specification must associate alike there)
+            return B(("t", r.t()), self.w)
+        return r
 
     def _small(self):
         """operand of an AND: a function with many monomials becomes one leaf"""
@@ -290,8 +300,22 @@ def prove_equal(a, b, timeout_ms=60000):
     ta, tb = a.t(), b.t()
     s = z3.Solver()
     if ta.eq(tb):
-        s.add(ta != tb)               # canonical forms coincide: the query is trivial, but it is still the solver's verdict
+        # canonical forms coincide (one hash-consed ast).  The solver is given the generalisation in which that common term is
+        # replaced by a fresh constant: v != v.  (Asserting the 24-round Keccak term itself makes Z3_solver_assert walk the
+        # dag as a tree and not return.)
+        v = z3.BitVec("common!%d" % ta.get_id(), ta.size())
+        s.add(v != v)
         return str(s.check()), None, "canonical"
+    # canonical forms differ.  Ground instances first (all inputs fixed to constants: z3 evaluates both terms), since a wrong
+    # kernel differs from the standard on almost every input while the fully symbolic disequality of two 64-round hash
+    # kernels takes z3 minutes to bit-blast; then the symbolic query, within the timeout.
+    import random, os
+    rnd = random.Random(int(os.environ.get("VERIF_SEED", "1")))
+    for k in range(6):
+        asg = [(v, z3.BitVecVal({0: 0, 1: (1 << v.size()) - 1}.get(k, rnd.getrandbits(v.size())), v.size())) for v in _VARS]
+        va, vb = z3.simplify(z3.substitute(ta, *asg)), z3.simplify(z3.substitute(tb, *asg))
+        if z3.is_bv_value(va) and z3.is_bv_value(vb) and va.as_long() != vb.as_long():
+            return "sat", {str(v): c.as_long() for v, c in asg}, "ground instance"
     s.set("timeout", timeout_ms)
     s.add(ta != tb)
     r = s.check()
